@@ -277,35 +277,40 @@ func submitTimeOK(c *Ctx, h *ssa.Function, v *ir.Expr) bool {
 
 // tautologicalSkip: in f the cursor store is skipped only via the false edge of (v+1 > v).
 func tautologicalSkip(c *Ctx, rm recMod, f *ssa.Function) bool {
-	for _, b := range f.Blocks {
-		iff, ok := b.Instrs[len(b.Instrs)-1].(*ssa.If)
-		if !ok {
-			continue
+	// asked on the flat view of f, with every condition expressed in f's terms: `id > beacon.LastTimestampId`
+	// inside a helper handed id = old+1 and the loaded registration is the same tautology as when written inline
+	w := c.W
+	found := false
+	isTaut := func(e *ir.Expr) bool {
+		if e == nil || e.Op != "bin" || len(e.Args) != 2 {
+			return false
 		}
-		bo, ok := iff.Cond.(*ssa.BinOp)
-		if !ok {
-			continue
+		big, small := e.Args[0], e.Args[1]
+		switch e.Name {
+		case ">", ">=":
+		case "<", "<=":
+			big, small = small, big
+		default:
+			return false
 		}
 		// v+1 > v, or mirrored v < v+1 (also >= / <=: equally always true)
-		big, small := bo.X, bo.Y
-		switch bo.Op {
-		case token.GTR, token.GEQ:
-		case token.LSS, token.LEQ:
-			big, small = bo.Y, bo.X
-		default:
-			continue
-		}
-		add, ok := big.(*ssa.BinOp)
-		if !ok || add.Op != token.ADD {
-			continue
-		}
-		if cst, ok := add.Y.(*ssa.Const); ok && cst.Value != nil && cst.Value.String() == "1" {
-			if c.W.ExprOf(add.X).String() == c.W.ExprOf(small).String() {
-				return true
+		return big.Op == "bin" && big.Name == "+" && len(big.Args) == 2 && big.Args[1].Op == "const" && big.Args[1].Name == "1" && big.Args[0].String() == small.String()
+	}
+	root := w.FlatRoot(f)
+	w.FlatWalk(root, nil, nil, func(p ir.FPos) bool {
+		if iff, ok := p.In.(*ssa.If); ok {
+			e := w.ExprOf(iff.Cond)
+			if p.Ctx != root {
+				e = p.Ctx.Apply(e)
+			}
+			if isTaut(e) {
+				found = true
+				return false
 			}
 		}
-	}
-	return false
+		return true
+	})
+	return found
 }
 
 func queryOf(c *Ctx, m, name string) *ssa.Function {
@@ -718,6 +723,10 @@ func addIsChecked(c *Ctx, f *ssa.Function, bo *ssa.BinOp, roots []*ssa.Function,
 				if isErrorOnlyUse(c, f, rf) {
 					continue
 				}
+				// handed back to the callers (a helper computing the sum and a verdict): judge what each caller does with it
+				if ret, ok := rf.(*ssa.Return); ok && returnedSumChecked(c, f, ret, bo, wrapGuard) {
+					continue
+				}
 				local = false
 			}
 		}
@@ -740,6 +749,57 @@ func addIsChecked(c *Ctx, f *ssa.Function, bo *ssa.BinOp, roots []*ssa.Function,
 		}
 	}
 	return false
+}
+
+// returnedSumChecked: the sum is a result of helper f; at every call site of f each use of that result is
+// guarded by the wrap check (typically through the helper's own verdict result) or only builds an error.
+func returnedSumChecked(c *Ctx, f *ssa.Function, ret *ssa.Return, bo *ssa.BinOp, wrapGuard func(string, ...string) ir.Matcher) bool {
+	w := c.W
+	ri := -1
+	for i, v := range ret.Results {
+		if v == ssa.Value(bo) {
+			ri = i
+		}
+	}
+	callers := w.Callers(f)
+	if ri < 0 || len(callers) == 0 {
+		return false
+	}
+	tup := &ir.Expr{Op: "tuple", Args: []*ir.Expr{w.ExprOf(bo), w.ExprOf(bo.X), w.ExprOf(bo.Y)}}
+	for _, ed := range callers {
+		call, ok := ed.Site.(*ssa.Call)
+		if !ok {
+			return false
+		}
+		g := call.Parent()
+		up := w.ArgSubst(call, f, tup)
+		if up.Op != "tuple" || len(up.Args) != 3 {
+			return false
+		}
+		m := wrapGuard(up.Args[0].String(), up.Args[1].String(), up.Args[2].String())
+		var uses []ssa.Instruction
+		if f.Signature.Results().Len() == 1 {
+			if call.Referrers() != nil {
+				uses = append(uses, *call.Referrers()...)
+			}
+		} else if call.Referrers() != nil {
+			for _, x := range *call.Referrers() {
+				if ex, ok := x.(*ssa.Extract); ok && ex.Index == ri && ex.Referrers() != nil {
+					uses = append(uses, *ex.Referrers()...)
+				}
+			}
+		}
+		for _, u := range uses {
+			if _, dbg := u.(*ssa.DebugRef); dbg {
+				continue
+			}
+			if w.Guarded(g, u, m, 2) || isErrorOnlyUse(c, g, u) {
+				continue
+			}
+			return false
+		}
+	}
+	return true
 }
 
 // isErrorOnlyUse: the instruction feeds only the construction of an error value.
